@@ -132,7 +132,7 @@ func (FramesClean) Generate(seed uint64, tier string) engine.Plan {
 				m = genBigMsg(r)
 			}
 			w.Msgs = append(w.Msgs, m)
-			total += int64(32 + m.Len + 16)
+			total += int64(32 + m.bodyBound())
 		}
 		w.Off = next
 		w.Slack = r.PickInt64(0, 1, 100)
@@ -374,16 +374,37 @@ func (FramesClean) Execute(pl engine.Plan, c *engine.RunCtx) *engine.Failure {
 				} else {
 					h.BeginOp(simio.Arm{})
 				}
-				// Size/HeaderSize are asked BEFORE the frame is written (in a cold
-				// process: before anything else of the package has run)
-				sizeBefore, hsBefore := pbcmpl.Size(msg), pbcmpl.HeaderSize(msg)
+				// Size/HeaderSize are usually asked BEFORE the frame is written (in a
+				// cold process: before anything else of the package has run); for a
+				// quarter of the messages only afterwards (Marshal meets a message that
+				// was never sized); for another quarter Size is asked while nested
+				// fields are still in an earlier state, the message is then completed
+				// and written (sizes a protobuf message caches are out of date).
+				mode := spec.SizeMode()
+				var sizeBefore, hsBefore int64
+				switch mode {
+				case "stale":
+					if finish := spec.Unfinished(msg); finish != nil {
+						_ = pbcmpl.Size(msg)
+						finish()
+						st.Inc("probe.C06.sized_then_completed_then_written")
+					}
+					mode = "after"
+				case "before":
+					sizeBefore, hsBefore = int64(pbcmpl.Size(msg)), int64(pbcmpl.HeaderSize(msg))
+				}
 				c.Status.SetStep(uint64(step), 1)
 				n, err, pan := callMarshal(dst, msg)
 				c.Status.SetStep(uint64(step), 0)
 				c.LibCalls++
 				st.Inc("op.marshal." + spec.Kind)
-				if pan == nil && err == nil && (int64(sizeBefore) != n || hsBefore != 32) {
-					fail = engine.Failf("C06.size", step, "asked before writing, Size(msg)=%d and HeaderSize(msg)=%d; Marshal then wrote %d bytes", sizeBefore, hsBefore, n)
+				when := "before"
+				if mode == "after" {
+					when = "after"
+					sizeBefore, hsBefore = int64(pbcmpl.Size(msg)), int64(pbcmpl.HeaderSize(msg))
+				}
+				if pan == nil && err == nil && (sizeBefore != n || hsBefore != 32) {
+					fail = engine.Failf("C06.size", step, "asked %s writing, Size(msg)=%d and HeaderSize(msg)=%d; Marshal wrote %d bytes", when, sizeBefore, hsBefore, n)
 					return
 				}
 				var got []byte
